@@ -12,17 +12,20 @@
 #include <unistd.h>
 #include <urcu/rculfhash.h>
 #include <urcu/call-rcu.h>
+#include "rculfhash-internal.h"	/* /repo/src: only to read the private bucket count (C09 bound) */
 
 enum { M_LIN, M_UNIQUE, M_OWNER, M_RESIZE };
 enum {
 	K_ADD, K_ADD_UNIQUE, K_ADD_REPLACE, K_REPLACE, K_DEL, K_LOOKUP, K_WALK, K_TRAVERSE,
-	K_RESIZE, K_NK
+	K_RESIZE, K_FILL, K_NK
 };
 static const char *const opname[] = {
-	"add", "add_unique", "add_replace", "replace", "del", "lookup", "walk", "traverse", "resize"
+	"add", "add_unique", "add_replace", "replace", "del", "lookup", "walk", "traverse", "resize", "fill"
 };
 
 #define NKEYS 5		/* 0..2 active, 3..4 resident (lookups only) */
+#define FILL_BASE 52	/* node ids 52..63: filler nodes, one private key each (drive the node-count based lazy resize) */
+#define FILL_MAX 12
 #define HMAGIC 0x68a5400dbeefL
 
 struct hnode {
@@ -132,6 +135,48 @@ static struct hnode *to_hnode(struct cds_lfht_node *n, const char *where)
 	return h;
 }
 
+/*
+ * C09: "the number of buckets always stays between 1 and max_nr_buckets". Read
+ * straight from the table (any value ever stored must be within bounds, so a
+ * stale value under TSO is as good as a fresh one); uninstrumented: adds no
+ * yield point.
+ */
+HARNESS_BOOKKEEPING static void size_invariant(const char *where)
+{
+	unsigned long size = ht->size;
+	if (size < 1 || size > max_buckets)
+		usim_fail("lfht-bucket-bound", "%s: the table has %lu buckets, outside [1, max_nr_buckets=%lu]", where, size, max_buckets);
+}
+
+static unsigned long fill_hash(int j)
+{
+	return (unsigned long) (j + 1) * 0x9e3779b97f4a7c15UL;
+}
+
+static int fill_keyval[FILL_MAX];
+
+/* bulk insertion of nodes with private, well-spread keys */
+static void do_fill(int first, int n)
+{
+	int j;
+	for (j = first; j < first + n && j < FILL_MAX; j++) {
+		struct hnode *h = malloc(sizeof(*h));
+		uint64_t inv;
+		usim_mem_tag(h, "lfht-filler-node");
+		cds_lfht_node_init(&h->n);
+		h->magic = HMAGIC;
+		h->id = FILL_BASE + j;
+		h->key = fill_keyval[j] = 200 + j;
+		hor_node(h->id, NKEYS + j);
+		F->read_lock();
+		inv = usim_seq();
+		cds_lfht_add(ht, fill_hash(j), &h->n);
+		hor_added(h->id, inv);
+		F->read_unlock();
+		size_invariant("after an add");
+	}
+}
+
 static void free_node_cb(struct rcu_head *rh)
 {
 	free(caa_container_of(rh, struct hnode, rh));
@@ -171,6 +216,11 @@ static void do_op(int me, struct op *op)
 
 	if (op->kind == K_RESIZE) {
 		do_resize((unsigned long) op->v);
+		size_invariant("after cds_lfht_resize()");
+		return;
+	}
+	if (op->kind == K_FILL) {
+		do_fill(op->b, (int) op->v);
 		return;
 	}
 	if (H->n + 3 > WGL_MAXOPS - 2)
@@ -321,6 +371,8 @@ static void *h_thread(void *arg)
 			continue;
 		if (op->kind == K_RESIZE)
 			usim_set_op("%d.%d cds_lfht_resize(%lu)", me, i, (unsigned long) op->v);
+		else if (op->kind == K_FILL)
+			usim_set_op("%d.%d fill %ld nodes", me, i, op->v);
 		else
 			usim_set_op("%d.%d %s key%d", me, i, opname[op->kind], op->a);
 		/* qsbr: a registered thread is online whenever it uses the table */
@@ -328,8 +380,14 @@ static void *h_thread(void *arg)
 		if (F->is_qsbr && !(op->kind == K_RESIZE && (op->b & 1)))
 			F->thread_online();
 		do_op(me, op);
+		size_invariant("after an operation");
 		if (F->is_qsbr && !(op->kind == K_RESIZE && (op->b & 1)))
 			F->thread_offline();
+		if (op->kind == K_FILL && op->c) {
+			/* leave the resize worker time to act on what the node counters requested */
+			usleep(30000 * op->c);
+			size_invariant("some time after a bulk insertion (lazy resize)");
+		}
 	}
 	usim_quiet_vote();
 	if (!F->is_bp)
@@ -357,7 +415,7 @@ static void gen(void)
 {
 	int t, i, k, nkeys_active = 1 + rnd(3);
 	static const unsigned long inits[] = { 1, 2, 4 }, mins[] = { 1, 2 }, maxs[] = { 4, 8, 16, 64 };
-	int mmsel, total_per_key[NKEYS] = { 0 };
+	int mmsel, total_per_key[NKEYS] = { 0 }, nfill = 0;
 	const struct cds_lfht_mm_type *mm;
 
 	F = choose_flavor(0xf);
@@ -420,6 +478,14 @@ static void gen(void)
 			if (resizer && r < 70) {
 				op->kind = K_RESIZE;
 				op->v = (long) pick_resize_size();
+			} else if (nfill < FILL_MAX && rnd(100) < (mode == M_RESIZE ? 14u : 5u)) {
+				op->kind = K_FILL;
+				op->c = rnd(3);
+				op->b = nfill;
+				op->v = 2 + rnd(FILL_MAX - 1);
+				if (nfill + op->v > FILL_MAX)
+					op->v = FILL_MAX - nfill;
+				nfill += (int) op->v;
 			} else if (r < 8 && nresident) {
 				op->kind = rnd(2) ? K_LOOKUP : K_WALK;
 				op->a = 3 + rnd(nresident);
@@ -448,7 +514,7 @@ static void gen(void)
 				else if (r < 90) op->kind = K_WALK;
 				else op->kind = K_TRAVERSE;
 			}
-			if (op->kind != K_RESIZE && op->kind != K_TRAVERSE && total_per_key[op->a] >= 12)
+			if (op->kind != K_RESIZE && op->kind != K_FILL && op->kind != K_TRAVERSE && total_per_key[op->a] >= 12)
 				op->kind = K_TRAVERSE;
 			if (op->kind <= K_REPLACE) {
 				if (next_id >= 50)
@@ -456,10 +522,12 @@ static void gen(void)
 				else
 					op->v = next_id++;
 			}
-			if (op->kind != K_RESIZE && op->kind != K_TRAVERSE)
+			if (op->kind != K_RESIZE && op->kind != K_FILL && op->kind != K_TRAVERSE)
 				total_per_key[op->a]++;
 			if (op->kind == K_RESIZE)
 				usim_describe("%s\"resize(%ld)\"", i ? "," : "", op->v);
+			else if (op->kind == K_FILL)
+				usim_describe("%s\"fill(%ld)\"", i ? "," : "", op->v);
 			else if (op->kind == K_TRAVERSE)
 				usim_describe("%s\"traverse\"", i ? "," : "");
 			else
@@ -522,6 +590,7 @@ static void run_common(int m)
 			all[nall++] = h;
 	}
 	hor_trav_end(trav);
+	size_invariant("at quiescence");
 	present = hor_present_count();
 	if (nall != present)
 		usim_fail("lfht-conservation", "at quiescence a full traversal finds %d nodes but %d were added and not removed", nall, present);
